@@ -156,6 +156,11 @@ func setupProfile(e *Env, o core.RunOpts) error {
 	case "C12":
 		return setupRelay(e, o)
 	case "C14":
+		if e.Ch.Bool("cfg.c14.transition", 250) {
+			// rewards while signing groups are replaced: several groups exist, members belong to more than one
+			e.Shared["transition.eco"] = true
+			return setupTransition(e, o)
+		}
 		return setupEconomy(e, o)
 	case "C08", "C17":
 		return setupTunnel(e, o)
@@ -251,7 +256,7 @@ func setupOracle(e *Env, o core.RunOpts) error {
 	if (o.Prop == "C09" || o.Prop == "C01") && e.Ch.Bool("cfg.oracle.samplingchurn", 400) {
 		gov := &GovActor{}
 		e.Shared["gov"] = gov
-		e.Actors = append(e.Actors, gov, &SamplingParamChurn{Rate: 20 + e.Ch.Intn("cfg.oracle.churnrate", 60)})
+		e.Actors = append(e.Actors, gov, &SamplingParamChurn{Rate: 20 + e.Ch.Intn("cfg.oracle.churnrate", 60), Expiry: o.Prop == "C01"})
 	}
 	e.Monitors = append(e.Monitors, NewC01(), &C09{}, c13)
 	e.MaxSteps = e.Ch.Range("cfg.steps", 30, 90)
@@ -353,6 +358,10 @@ func setupTransition(e *Env, o core.RunOpts) error {
 		tp.SigningPeriod = uint64(e.Ch.Range("cfg.tss.period2", 12, 40))
 	}
 	bp := drawBandtssParams(e)
+	eco := e.Shared["transition.eco"] == true
+	if eco {
+		bp.RewardPercentage = []uint64{10, 50, 100}[e.Ch.Intn("cfg.eco.tpct2", 3)]
+	}
 	e.Shared["tss.genesis.params"] = tp
 	e.Shared["bandtss.genesis.params"] = bp
 	cfg := world.Config{Seed: o.Seed, ChainID: "simband", ValTokens: tokens, NumUsers: 13, Replicas: 1, GenesisTime: baseTime}
@@ -408,6 +417,12 @@ func setupTransition(e *Env, o core.RunOpts) error {
 		&TSSActor{Pool: pool, ByzP: e.Ch.Intn("cfg.tss.byz", 150), ReactP: 300, OverDEP: 0, HoldStaleP: []int{0, 300, 700}[e.Ch.Intn("cfg.tss.holdstale", 3)]},
 		&SigRequester{Rate: 100 + e.Ch.Intn("cfg.sigreq.rate", 400), MaxOpen: 1 + e.Ch.Intn("cfg.sigreq.maxopen", 4), Senders: w.Users[poolSize:], LimitW: []int{85, 5, 5, 5}, RollbackP: 30})
 	e.Monitors = append(e.Monitors, &C04{}, &C18{}, &C05{}, &C03{}, &C10{}, &C09{WithTSS: true}, &C13{WithTSS: true}, &C11{})
+	if eco {
+		// fees flow into the pool and part of them is paid to the current group's members: the fee ledgers of the other
+		// properties' models do not expect that income, so these runs are judged by C14's monitor alone
+		e.Actors = append(e.Actors, &FeeActor{Users: w.Users[poolSize:], Rate: 300 + e.Ch.Intn("cfg.eco.feerate", 400)})
+		e.Monitors = []Monitor{&C14{}}
+	}
 	e.MaxSteps = e.Ch.Range("cfg.steps", 60, 150)
 	if o.Thorough {
 		e.MaxSteps = e.Ch.Range("cfg.steps", 80, 260)
@@ -623,6 +638,15 @@ func setupTunnel(e *Env, o core.RunOpts) error {
 		gov := &GovActor{}
 		e.Shared["gov"] = gov
 		e.Actors = append(e.Actors, gov, &TunnelParamChurn{Rate: 10 + e.Ch.Intn("cfg.tunnel.churnrate", 30)})
+	}
+	if (o.Prop == "C08" || o.Prop == "C17") && e.Ch.Bool("cfg.tunnel.blackout", 300) {
+		gov := getGov(e)
+		if gov == nil {
+			gov = &GovActor{}
+			e.Shared["gov"] = gov
+			e.Actors = append(e.Actors, gov)
+		}
+		e.Actors = append(e.Actors, &FeedsBlackout{At: 12 + e.Ch.Intn("cfg.tunnel.blackout.at", 40), Len: 10 + e.Ch.Intn("cfg.tunnel.blackout.len", 30)})
 	}
 	e.Monitors = append(e.Monitors, &C08{}, &C17{}, &C06{}, &C07{}, &C05{}, &C10{}, &C09{WithTSS: true}, &C11{}, &C13Tunnel{})
 	e.MaxSteps = e.Ch.Range("cfg.steps", 50, 120)
